@@ -106,6 +106,11 @@ def run(ctx):
     if not ctx.quick:
         ctx.extra["exhaustive"] = False
         ctx.extra["exhaustive_part"] = "all request lists of length <= 3 over a 24-tag universe for each of 4 locale sets"
+    # "the default when nothing matches" is the configured default: where it is written in the `locales` list must not matter
+    from . import c19, pipe
+    binp = pipe.build_parser(ctx)
+    if binp is not None:
+        c19.default_first_stage(ctx, rng, binp)
     impl = run_lines_resilient(binr, [dict(c, op="negotiate") for c in cases])
     # build the Lean requests
     lreqs, idx = [], []
